@@ -80,8 +80,8 @@ class PyFileSearcher(AbstractSearcher):
                 if pyTime >= mtime:
                     raise error.PySmiFileNotModifiedError()
 
-                else:
-                    raise error.PySmiFileNotFoundError('older file %s exists' % mibname, searcher=self)
+                debug.logger & debug.flagSearcher and debug.logger('older file %s exists' % f)
+                continue
 
             else:
                 debug.logger & debug.flagSearcher and debug.logger('bad magic in %s' % f)
